@@ -17,7 +17,7 @@ TEXT_STYLES = [s for s in S.STYLES]
 NAMES = ["main", "util", "mod", "with space", "ünï", "data", "x-y_z", "README", "日本"]
 DIRS = ["", "", "src", "src/sub", "docs", "a b"]
 DEFECTS = ["strip-cop", "strip-lic", "drop-licence-text", "unused-text", "junk-text", "unknown-id", "deprecated-text", "no-extension",
-           "unreadable", "bad-expression", "wrong-case-id"]
+           "unreadable", "bad-expression", "wrong-case-id", "empty-licence-tag"]
 
 
 @st.composite
@@ -187,6 +187,12 @@ def apply_defect(draw, state, kind, idpool):
         target = f["own"] if (f["own"] and f["kind"] == "text") else f["dotlic"]
         if target is not None:
             target["bad"] = draw(st.sampled_from(V.INVALID_EXPRESSIONS))
+    elif kind == "empty-licence-tag":
+        # the licence tag is there but its value is empty: the file declares no licence (its copyright stays)
+        target = f["own"] if (f["own"] and f["kind"] == "text" and not f["dotlic"]) else f["dotlic"]
+        if target is not None and not target.get("bad"):
+            target["lic"] = []
+            target["empty_tag"] = True
     state["defects"].append(kind)
 
 
@@ -282,10 +288,11 @@ def materialise(root, state):
             files[path] = b"\x00\x01\x02\xff\xfe\x00binary\x00"
         else:
             o = f["own"] or {"cop": [], "lic": []}
-            files[path] = P.header_text(f["style"], o["cop"], o["lic"], block=f["block"], extra_invalid=o.get("bad"), body=f.get("body", "body\n"))
+            files[path] = P.header_text(f["style"], o["cop"], o["lic"], block=f["block"], extra_invalid=o.get("bad") or (" " if o.get("empty_tag") else None), body=f.get("body", "body\n"))
         if f["dotlic"] is not None:
             d = f["dotlic"]
-            files[path + ".license"] = P.header_text("none", d["cop"], d["lic"], body="", extra_invalid=d.get("bad")) or "\n"
+            # an empty sibling is written as zero bytes or as one newline: both shadow the file
+            files[path + ".license"] = P.header_text("none", d["cop"], d["lic"], body="", extra_invalid=d.get("bad") or (" " if d.get("empty_tag") else None)) or ("\n" if len(path) % 2 else "")
         if f["unreadable"] == "dir-license":
             files[path + ".license"] = ("dir",)
         if f["table"] and state["gkind"] == "toml":
